@@ -25,6 +25,10 @@ import (
 
 var clientSeq int
 
+// earlyGrace: how long an `early` op keeps the call inside its ack window after the
+// acknowledgement (and a PINGREQ behind it) went out, waiting for the PINGRESP.
+const earlyGrace = 20 * time.Millisecond
+
 type clientCore struct {
 	ln    net.Listener
 	cln   *service.Client
@@ -627,6 +631,19 @@ func (c *clientCore) handle(ws []string) string {
 		if c.cln == nil {
 			return "apierr"
 		}
+		if len(api) >= 3 && api[0] == "pub" && api[2] == "0" {
+			// a QoS 0 publish registers nothing (and takes no lock): there is no window; the call,
+			// then the packet
+			err := c.doAPI(api)
+			c.peer.SetWriteDeadline(time.Now().Add(brokerWait))
+			c.peer.Write(peerPacketBytes(c.resolveRefs(ack)))
+			ok := c.sync()
+			var extra []string
+			if err != nil {
+				extra = []string{"apierr"}
+			}
+			return c.collect(extra, ok)
+		}
 		c.mu.Lock()
 		c.armed = true
 		c.mu.Unlock()
@@ -637,6 +654,7 @@ func (c *clientCore) handle(ws []string) string {
 		case <-time.After(brokerWait):
 			return "NO-WINDOW"
 		}
+		// the call now sits between the write of its request and the registration
 		ok0 := true
 		if hasRef(ack) {
 			// the acknowledgement may name the request being made: the peer has to have read it
@@ -645,10 +663,28 @@ func (c *clientCore) handle(ws []string) string {
 			c.noteWritten(api, c.rd.items)
 			c.rd.mu.Unlock()
 		}
+		c.peer.SetWriteDeadline(time.Now().Add(brokerWait))
 		c.peer.Write(peerPacketBytes(c.resolveRefs(ack)))
-		ok1 := c.sync()
+		// The acknowledgement reaches the client inside the window, a PINGREQ right behind it.  A
+		// library that processes the acknowledgement inside the window answers the PINGREQ at
+		// once (and has then dropped the acknowledgement: E5).  The repaired library holds the
+		// acknowledgement back until the request is registered (service.ackmu), so the PINGRESP
+		// cannot come before the call is let go: wait a bounded time for it, then end the window.
+		// Either way the acknowledgement has been processed when the PINGRESP of the final
+		// barrier arrives, and the output of the op does not depend on the waiting time.
+		c.peer.Write([]byte{0xc0, 0x00})
+		c.pendingBarrierPongs++
+		c.pingsSent++
+		want := c.pingsSent
+		c.rd.waitUntil(func() bool { return c.rd.pongs >= want || c.rd.eof }, earlyGrace)
 		c.relse <- struct{}{}
-		err := <-errc
+		var err error
+		ok1 := true
+		select {
+		case err = <-errc:
+		case <-time.After(brokerWait):
+			ok1 = false
+		}
 		ok2 := c.sync()
 		var extra []string
 		if err != nil {
